@@ -358,8 +358,9 @@ def rotation_matrix_from_to(from_vec, to_vec):
         elif np.array_equal(to_vec, -from_vec):
             angle = np.pi
         else:
-            angle = (np.sign(np.dot(from_rot, to_vec)) *
-                     np.arccos(np.clip(np.dot(from_vec, to_vec), -1, 1)))
+            # The sign must not be 0 for (numerically) opposite vectors
+            sign = 1.0 if np.dot(from_rot, to_vec) >= 0 else -1.0
+            angle = sign * np.arccos(np.clip(np.dot(from_vec, to_vec), -1, 1))
         return np.array([[np.cos(angle), -np.sin(angle)],
                          [np.sin(angle), np.cos(angle)]])
 
